@@ -3,6 +3,7 @@ package main
 import (
 	"fmt"
 	"go/types"
+	"strings"
 
 	"golang.org/x/tools/go/ssa"
 )
@@ -16,7 +17,16 @@ type IterV struct {
 
 func mapKeySort(mt *types.Map) Sort {
 	if s, _, ok := isScalarLeaf(mt.Key()); ok {
+		if strings.HasPrefix(string(s), "(Array ") {
+			return SInt // fixed-size array keys ([20]byte addresses) are keyed by an injective code, see arrKey
+		}
 		return s
+	}
+	// a struct key with exactly one scalar leaf is keyed by that leaf
+	if _, isStruct := mt.Key().Underlying().(*types.Struct); isStruct {
+		if lfs := leaves(mt.Key()); len(lfs) == 1 && lfs[0].Kind != "opaque" {
+			return lfs[0].Sort
+		}
 	}
 	if _, ok := mt.Key().Underlying().(*types.Interface); ok {
 		return SInt // abstraction: interface keys compared by payload only
@@ -24,14 +34,33 @@ func mapKeySort(mt *types.Map) Sort {
 	return Sort("Opaque")
 }
 
+// arrKey maps a fixed-size array value to an integer code; the code is injective (axiom), so map
+// lookups keyed by addresses behave exactly as with the arrays themselves while the solvers only see
+// integer-indexed arrays.
+func (u *Unit) arrKey(t Term) Term {
+	fn := "akey_" + sanitize(string(t.Sort))
+	if !u.c.funs[fn] {
+		u.c.DeclFun(fn, []Sort{t.Sort}, SInt)
+		u.c.Raw(fmt.Sprintf("(assert (forall ((a %s) (b %s)) (! (=> (= (%s a) (%s b)) (= a b)) :pattern ((%s a) (%s b)))))", t.Sort, t.Sort, fn, fn, fn, fn))
+	}
+	return app(SInt, fn, t)
+}
+
 func (u *Unit) mapKeyTerm(mt *types.Map, k Value) Term {
 	switch x := k.(type) {
 	case Scalar:
+		if strings.HasPrefix(string(x.T.Sort), "(Array ") {
+			return u.arrKey(x.T)
+		}
 		return x.T
 	case PtrV:
 		return x.Base
 	case IfaceV:
 		return x.Pay
+	case StructV:
+		if ts := u.m.flatten(mt.Key(), x); len(ts) == 1 {
+			return ts[0]
+		}
 	}
 	u.unsupportedf("map key of kind %T (%s)", k, typeName(mt.Key()))
 	return u.c.Fresh("mapkey", mapKeySort(mt))
@@ -166,8 +195,8 @@ func (fr *Frame) lookup(x *ssa.Lookup, st *State, pc Term) Value {
 
 func (fr *Frame) rangeInit(x *ssa.Range, st *State) Value {
 	u := fr.u
-	u.eng.iterCtr++
 	key := fmt.Sprintf("iter|%s|%d", fr.fn.Name(), x.Pos())
+	u.iterOrder = append(u.iterOrder, key)
 	switch mt := x.X.Type().Underlying().(type) {
 	case *types.Map:
 		ks := mapKeySort(mt)
